@@ -18,7 +18,7 @@ LEVEL = 'exploration'
 RULE = ('every (forest, thresholds, report pattern, ordered genome placement, distance vector) within the bounds; non-trivial = the closest '
         "genome's lineage holds >=2 taxa and >=1 threshold (a walk up the lineage is needed); cases enumerated once each")
 ASSUMPTIONS = [
-	'forests above 4 (quick) / 5 (thorough) taxa and more than 2 / 3 reference genomes are not explored',
+	'all forest shapes only up to 4 (quick) / 5 (thorough) taxa and 2 / 3 reference genomes; deeper taxonomies only as single lineages of depth 6..8 (10)',
 	'distances and thresholds compared as exact binary values (NumPy 1.26 scalar semantics: float32 distance vs double threshold)',
 ]
 F32 = np.float32
@@ -37,6 +37,9 @@ def plan(tier, seed):
 		nsh = {1: 1, 2: 1, 3: 8}.get(n, 32 if tier == 'quick' else 64)
 		for s in range(nsh):
 			tasks.append(('t_classify', dict(n=n, gmax=g, nthr=nthr, shard=s, nshards=nsh)))
+	for L in ((6, 7, 8) if tier == 'quick' else (6, 7, 8, 9, 10)):
+		for part in range(4):
+			tasks.append(('t_chains', dict(L=L, part=part, nparts=4)))
 	tasks.append(('t_report', dict(N=5 if tier == 'quick' else 6)))
 	tasks.append(('t_monotone', dict(N=4 if tier == 'quick' else 5)))
 	return tasks
@@ -130,6 +133,30 @@ def t_classify(n, gmax, nthr, shard, nshards):
 	return sh
 
 
+def t_chains(L, part, nparts):
+	"""Deep single lineages (depth 6..8, thorough 10): every threshold assignment over {none, 1/4, 1/2} (first L-? levels) x genome on the leaf or on
+	a middle taxon x every distance - a walk that stops after a fixed number of ancestors, or assumes monotone thresholds, shows here."""
+	sh = Shard()
+	parent = tuple([None] + list(range(L - 1)))      # taxon 0 is the root, L-1 the leaf
+	taxa = taxo.build_taxa(parent)
+	ci = 0
+	free = min(L, 8)
+	for thr_head in itertools.product(THR3, repeat=free):
+		ci += 1
+		if ci % nparts != part:
+			continue
+		thr = tuple([None] * (L - free)) + thr_head if L > free else thr_head
+		for report in (tuple([True] * L), tuple(i % 3 == 0 for i in range(L))):
+			taxo.set_attrs(taxa, thr=thr, report=report)
+			for placement in ((L - 1,), (L // 2,), (L - 1, L // 2)):
+				genomes = taxo.make_genomes(taxa, placement)
+				for dists in itertools.product([0.0, 0.25, float(F32(0.3)), 0.5, 0.75], repeat=len(placement)):
+					check_item(sh, parent, thr, report, taxa, placement, dists, genomes)
+	sh.count('deep_lineage_cases', sh.evals)
+	sh.sample(dict(family='chains', depth=L, thr=list(thr), placement=list(placement), dists=list(dists)))
+	return sh
+
+
 def t_report(N):
 	"""user-facing taxon: every forest x every report-flag vector x every start taxon."""
 	from gambit.db import reportable_taxon
@@ -186,7 +213,7 @@ def t_monotone(N):
 
 def finalize(agg, tier):
 	for c in ('no_prediction', 'prediction_is_own_taxon', 'prediction_above_thresholdless_own_taxon', 'distance_equals_threshold',
-	          'unreportable_prediction', 'tie_for_closest', 'non_monotone_thresholds', 'three_level_coarsening'):
+	          'unreportable_prediction', 'tie_for_closest', 'non_monotone_thresholds', 'three_level_coarsening', 'deep_lineage_cases'):
 		agg.require(c, 100)
 
 
